@@ -292,8 +292,20 @@ fn choose_fault<S: Sut>(w: &World<S>, g: &mut G) -> Option<Ev> {
             if ups.len() < 2 {
                 return None;
             }
+            // prefer crashing a node that has issued ops since its last backup: those dots get re-spent
+            let stale: Vec<usize> = ups
+                .iter()
+                .copied()
+                .filter(|n| match &w.nodes[*n].snap {
+                    Some((_, sk)) => w.ops.iter().enumerate().any(|(i, o)| o.author == *n && has(w.nodes[*n].k, i) && !has(*sk, i)),
+                    None => false,
+                })
+                .collect();
+            if !stale.is_empty() && rng.chance(2, 3) {
+                return Some(Ev::Crash { node: *rng.pick(&stale), lose_tail: 0 });
+            }
             let node = *rng.pick(&ups);
-            if w.nodes[node].snap.is_none() || rng.chance(1, 3) {
+            if w.nodes[node].snap.is_none() || rng.chance(1, 2) {
                 Some(Ev::Snapshot { node })
             } else {
                 Some(Ev::Crash { node, lose_tail: 0 })
@@ -423,9 +435,26 @@ pub fn generate<S: Sut>(cfg: &Config, seed: u64, log: bool) -> Generated<S> {
             }
         };
     }
+    let mut force_edit_at: Option<usize> = None;
     while events.len() < cfg.max_events && attempts < cfg.max_events * 6 {
         attempts += 1;
         let roll = g.rng.below(1000) as u32;
+        if let Some(Ev::Restart { node, stale: true }) = events.last() {
+            // misuse: a replica restored from an old backup goes on editing with the same actor
+            force_edit_at = Some(*node);
+        }
+        if let (Some(node), true) = (force_edit_at, cfg.misuse) {
+            force_edit_at = if g.rng.chance(1, 2) { Some(node) } else { None };
+            if w.up(node) && g.edits < cfg.max_edits + 3 {
+                let tag = g.next_tag;
+                g.next_tag += 1;
+                let desc = gen_desc(&w, &mut g, node, tag);
+                if run!(Ev::Edit { node, tag, desc, held: false, via: 0 }) {
+                    g.edits += 1;
+                }
+                continue;
+            }
+        }
         if roll < cfg.p_edit && g.edits < cfg.max_edits {
             let ups = up_nodes(&w);
             if ups.is_empty() {
